@@ -103,6 +103,8 @@ def impl_encode(kind, p, reuse_from=None, how=None):
             return {"ok": list(pk.bytestring)}
         except struct.error:
             return {"err": "struct.error"}
+        except Exception as e:
+            return {"err": type(e).__name__}
     kw = dict(reply_expected=p["reply"], tag=p["tag"], dest_port=p["dest_port"],
               dest_cpu=p["dest_cpu"], src_port=p["src_port"], src_cpu=p["src_cpu"],
               dest_x=p["dest_x"], dest_y=p["dest_y"], src_x=p["src_x"], src_y=p["src_y"],
@@ -129,6 +131,8 @@ def impl_encode(kind, p, reuse_from=None, how=None):
         return {"ok": list(packets.SCPPacket(**kw).bytestring)}
     except struct.error:
         return {"err": "struct.error"}
+    except Exception as e:
+        return {"err": type(e).__name__}
 
 
 # the documented (public) parameter order of the two constructors
@@ -156,6 +160,8 @@ def impl_decode(kind, bs, n_args, buf=None):
         return {"ok": pkt_fields(packets.SCPPacket.from_bytestring(raw, n_args), True)}
     except struct.error:
         return {"err": "struct.error"}
+    except Exception as e:      # anything else is not a documented outcome: named, then judged like any result
+        return {"err": type(e).__name__}
 
 
 def eval_cases(ctx, cases):
@@ -207,6 +213,11 @@ def eval_cases(ctx, cases):
                                       "decode(encode(p)) != p: got %r" % (back,), desc)
         else:
             ctx.tag("dec_%s_%s" % (c["proto"], "ok" if "ok" in c["impl"] else "short"))
+            if "err" in c["impl"] and "ok" in c["model"] and len(c["bytes"]) >= (14 if c["proto"] == "scp" else 10):
+                # a byte string that holds the whole header is the encoding of a packet: decoding takes the
+                # arguments the data contains and leaves the rest as payload - it cannot be refused
+                ctx.violation("decode-rejected", "decoding %d bytes with n_args=%d raised %s; the rule gives %r" % (
+                    len(c["bytes"]), c["n_args"], c["impl"]["err"], c["model"]["ok"]), desc)
             if c["proto"] == "scp" and "ok" in c["impl"]:
                 f = c["impl"]["ok"]
                 bs = c["bytes"]
